@@ -15,6 +15,12 @@ Tie (three parts, all on the working tree on every run):
     bytearray, NEX value objects, flat lists / tuples / dicts, opaque objects). The Lean model (`RmcResult.check`)
     predicts which exception the validation / encoder raises (name and class); the property's own "wrongly typed"
     relation (`incompatible`, Lean twin `incompat`, proved to be rejected by the model) demands an error response.
+    Unknown ids that ALIAS a defined one under a narrowing of the 32-bit method id / 16-bit protocol id (`alias_ids`,
+    `unknown_protocol_cases`): k | 2^b, k + r*2^b, sign-/one-extended, shifted and byte-swapped forms of every method id k of
+    every class, the holes of each table and the ids just past its end; the simulator records every generated handle()
+    entered and every user method invoked per request; `allowed_calls` is the property's "which handler may run" (none for
+    unknown protocol / method, unsupported method, unreadable parameters), the model's `dispatch` (driver line `inv`) must
+    predict the real dispatch of every request.
     For every request the compiled model (`nxdrv_C11`, line `full`) must predict both what the real
     `server.handle()` did and the exact bytes sent back (or silence, or that the exception leaves the loop).
  3. oracle on the real code = the property's outcome table, judged independently of the model.
@@ -70,6 +76,24 @@ RMC_EDGE_CODES = [0, 1, 0x10001, 0x10002, 0x7FFFFFFF, 0x80000000, 0x80010002, 0x
 RMC_BAD_CODES = [0x100000000, 0x180000005, -1, -5, -0x80000000]
 
 
+def alias_ids(k, ids, rng, quick):
+    """32-bit method ids that are NOT defined but that some narrowing of the id maps onto the defined id `k`:
+    one more bit set (what a mask `& ~2^b` would clear), k plus a multiple of 2^b (what a truncation to b bits would
+    drop; b = 8, 15, 16, 24, 31 and random), the sign-/one-extended forms, a byte-swapped id"""
+    out = {k | (1 << b) for b in range(32)}
+    out |= {k + (1 << 15), k + (1 << 16), k + (1 << 31), 0xFFFF0000 | k, 0xFFFF8000 | k, 0xFFFFFF00 | k, 0x80008000 | k,
+            (k << 8) & M32, (k << 16) & M32, (k << 24) & M32, int.from_bytes(k.to_bytes(4, "little"), "big"), (-k) & M32, k ^ M32}
+    for b in (8, 15, 16, 24):
+        for _ in range(1 if quick else 4):
+            out.add((k + (rng.randrange(1, 1 << (32 - b)) << b)) & M32)
+    out = sorted(x for x in out if x not in ids and 0 <= x <= M32)
+    if quick:   # bit 15 / 16 / 31 and the extended forms always; a sample of the others
+        must = {k | (1 << 15), k | (1 << 16), k | (1 << 31), 0xFFFF0000 | k, 0xFFFF8000 | k} - set(ids)
+        rest = [x for x in out if x not in must]
+        out = sorted(must | set(rng.sample(rest, min(len(rest), 8))))
+    return out
+
+
 def mk_case(si, idx, method, body, script, kind, extract, rng, protocol=None, call_id=None):
     if call_id is None:
         call_id = rng.choice([0, 1, M32, 0x80000000]) if rng.random() < 0.2 else rng.randrange(1 << 32)
@@ -90,16 +114,25 @@ def cases_for_server(si, idx, rng, tier, minor, all_codes):
         if rng.random() < 0.15: sc["yields"] = rng.randint(1, 2)
         if rng.random() < 0.1: sc["send_yields"] = 1
         sc.update(kw); return sc
+    def aliases(m, body):
+        # undefined ids that alias this defined one, carrying a body its handler would accept and scripts under which it
+        # would answer with a success / an error of its own: each must be answered NotImplemented and run no user code
+        for u in alias_ids(m["id"], ids, rng, quick):
+            sc = script("ok") if rng.random() < 0.8 else script("raise", exc="RMCError", code=rng.choice(all_codes))
+            cases.append(mk_case(si, idx, u, body, sc, "alias-method", "ok", rng))
     for m in si["methods"]:
         if not m["supported"]:
             cases.append(mk_case(si, idx, m["id"], b"", script("stub"), "unsupported", "ok", rng))
             cases.append(mk_case(si, idx, m["id"], rng.randbytes(rng.randint(1, 20)), script("ok"), "unsupported", "ok", rng))
+            aliases(m, b"")
             continue
         vseed = rng.randrange(1 << 30)
         try:
             body = R.valid_body(si, m, S, vseed)
         except R.V.Unbuildable:
+            aliases(m, b"")
             continue
+        aliases(m, body)
         # valid body: stub / success / failures
         cases.append(mk_case(si, idx, m["id"], body, script("stub"), "stub", "ok", rng))
         cases.append(mk_case(si, idx, m["id"], body, script("ok"), "ok", "ok", rng))
@@ -162,7 +195,10 @@ def cases_for_server(si, idx, rng, tier, minor, all_codes):
             pass
     # unknown method ids
     unk = [0, 0x7FFF, 0x8000, M32, (max(ids) + 1) if ids else 1, rng.randrange(1 << 32), rng.randrange(1, 300)]
-    for u in unk:
+    top = max(ids) if ids else 0
+    unk += [u for u in range(0, top + 4) if u not in ids][: (12 if quick else 300)]       # holes of the table, ids just past its end
+    unk += [top + 2, top + 3, top + 0x100, 2 * top + 1]
+    for u in dict.fromkeys(unk):
         if u not in ids:
             cases.append(mk_case(si, idx, u, rng.randbytes(rng.randint(0, 12)), script("ok"), "unknown-method", "ok", rng))
     rng.shuffle(cases)
@@ -208,12 +244,28 @@ def wrong_result_scripts(si, m, S, rng, npos, nval):
     return out
 
 
-def unknown_protocol_cases(srvinfos, rng, n):
+def unknown_protocol_cases(srvinfos, rng, n, minor=0):
     used = {s["protocol"] for s in srvinfos}
     cs = []
     for p in [0, 1, 0x7E, 0x7F, 0x80, 0xFF, 0x100, 0xFFFF] + [rng.randrange(1 << 16) for _ in range(n)]:
         if p not in used:
             cs.append(mk_case(None, None, rng.choice([1, 2, 3, M32]), rng.randbytes(rng.randint(0, 9)), {"mode": "ok", "vseed": 0}, "unknown-protocol", "ok", rng, protocol=p))
+    # unregistered protocol ids that ALIAS a registered one under a narrowing of the 16-bit id (one more bit set, the
+    # request flag 0x80 taken for part of the id, the high byte dropped), asking for a method that server defines with a
+    # body it accepts: NotImplemented, and no server is entered
+    S = session_settings(minor)
+    for si in srvinfos:
+        q = si["protocol"]
+        al = {q | (1 << b) for b in range(16)} | {q + 0x100, q + 0x8000, 0xFF00 | q, 0xFF80 | q, (q << 8) & 0xFFFF, q + (rng.randrange(1, 256) << 8)}
+        sup = [m for m in si["methods"] if m["supported"]]
+        for p in sorted(al):
+            if p in used or not (0 <= p <= 0xFFFF): continue
+            m = rng.choice(sup) if sup else None
+            body = b""
+            if m:
+                try: body = R.valid_body(si, m, S, rng.randrange(1 << 30))
+                except R.V.Unbuildable: pass
+            cs.append(mk_case(None, None, m["id"] if m else 1, body, {"mode": "ok", "vseed": rng.randrange(1 << 30)}, "alias-protocol", "ok", rng, protocol=p))
     return cs
 
 
@@ -238,7 +290,7 @@ def _worker(job):
     rng = random.Random(seed)
     _SEEN_SLOTS.clear()
     if kind == "server":
-        cases = unknown_protocol_cases(srvinfos, rng, 2) + cases_for_server(srvinfos[0], 0, rng, tier, minor, all_codes)
+        cases = unknown_protocol_cases(srvinfos, rng, 2, minor) + cases_for_server(srvinfos[0], 0, rng, tier, minor, all_codes)
         jobs = [(srvinfos, cases, minor)]
     elif kind == "lethal":
         cases = lethal_cases(srvinfos[0], 0, rng)
@@ -248,7 +300,7 @@ def _worker(job):
         pool = []
         for i, si in enumerate(srvinfos):
             pool += cases_for_server(si, i, rng, "quick", minor, all_codes)
-        pool += unknown_protocol_cases(srvinfos, rng, 20)
+        pool += unknown_protocol_cases(srvinfos, rng, 20, minor)
         cases = [rng.choice(pool) for _ in range(extra)]
         jobs = [(srvinfos, cases, minor)]
     res = R.run_sessions(jobs)
@@ -358,7 +410,42 @@ def expectation(case, si, res):
     return answer(("ok", bytes.fromhex(o[4:]) if o[4:] != "-" else b""))
 
 
+def allowed_calls(case, si):
+    """the user methods the property lets this request run, as a list of admissible invocation lists ([class, user] each):
+    none at all for an unknown protocol, an unknown or unsupported method id and for parameters that cannot be read;
+    otherwise the method with exactly the requested id, once"""
+    if si is None: return [[]]
+    m = next((x for x in si["methods"] if x["id"] == case["method"]), None)
+    if m is None or not m["supported"] or case["extract"] == "other": return [[]]
+    own = [[si["class"], m["user"]]]
+    return [own] if case["extract"] == "ok" else [[], own]     # arbitrary body: read completely, or not at all
+
+
+def judge_invocations(case, si, res):
+    calls = res.get("calls")
+    if calls is None: return None
+    ok = allowed_calls(case, si)
+    if calls in ok: return None
+    ran = ", ".join("%s.%s" % tuple(c) for c in calls) or "no user method"
+    if ok == [[]]:
+        why = ("an unregistered protocol" if si is None else
+               "a method id the server does not define" if not any(x["id"] == case["method"] for x in si["methods"]) else
+               "an unsupported method" if case["extract"] != "other" else "a body its parameters cannot be read from")
+        return ("handler-invoked", "%s ran for a request with %s: no handler may be invoked" % (ran, why))
+    return ("wrong-handler-invoked", "%s ran, expected exactly one invocation of %s.%s" % (ran, ok[-1][0][0], ok[-1][0][1]))
+
+
 def judge_case(case, si, res):
+    """-> None or (key, why): the response(s) first, then which user methods ran"""
+    bad = judge_response(case, si, res)
+    who = "%s.%s method %d (%s)" % (case["module"], case["class"], case["method"], case["kind"])
+    inv = judge_invocations(case, si, res)
+    if bad and inv: return (bad[0], "%s; moreover %s" % (bad[1], inv[1]))
+    if inv: return (inv[0], "%s: %s" % (who, inv[1]))
+    return bad
+
+
+def judge_response(case, si, res):
     """-> None or (key, why)"""
     exp = expectation(case, si, res)
     if exp[0] == "skip": return None
@@ -390,6 +477,20 @@ def judge_case(case, si, res):
     if a["ok"]: return ("wrong-outcome", "%s: expected error %#x, got a success response" % (who, exp[1]))
     if a["code"] != exp[1]: return ("wrong-code", "%s: expected error code %#x, got %#x" % (who, exp[1], a["code"]))
     return None
+
+
+def real_dispatch(srvinfos, res):
+    """what the real loop did with a request, in the vocabulary of the model's `dispatch` (driver line `inv`)"""
+    h, calls = res.get("handled") or [], res.get("calls") or []
+    if not h: return "nosrv" if not calls else "nosrv+calls %r" % calls
+    if len(h) != 1: return "entered %r" % h
+    si = next((s for s in srvinfos if s["class"] == h[0][0]), None)
+    if si is None: return "entered %r" % h
+    if not calls: u = "-"
+    elif len(calls) == 1 and calls[0][0] == si["class"]:
+        u = next((str(m["id"]) for m in si["methods"] if m["user"] == calls[0][1]), "?" + calls[0][1])
+    else: u = "calls %r" % calls
+    return "%s:%s:%s" % (si["protocol"], h[0][1], u)
 
 
 def shrink_history(srvinfos, seq, minor, fresh_last):
@@ -453,7 +554,8 @@ def translate(ctx):
 
 def run(ctx):
     rng, quick = ctx.rng, ctx.tier == "quick"
-    ctx.rule = ("every generated server class x every method id of its table (+ unknown ids, unknown protocols) x scripted user behaviour "
+    ctx.rule = ("every generated server class x every method id of its table (+ unknown ids incl. those aliasing each defined id under a "
+                "narrowing of the 32-bit id, holes of the table, unknown protocols incl. aliases of the registered ones) x scripted user behaviour "
                 "(stub / well-typed result / wrongly typed / incomplete / RMC errors / mapped, subclassed and unmapped exceptions / a result that is well typed "
                 "except for ONE value of any builtin kind at any position: whole result, response field, list element, map key or value, structure "
                 "attribute at any depth) x (PRUDP minor version, NEX version) x request body "
@@ -517,6 +619,8 @@ def run(ctx):
             if ex == "observed":
                 ex = "ok" if (res.get("called") or not (m and m["supported"])) else (res.get("observed") or "ok")
             lines.append("sreq %s %s %s" % (case["datagram"], ex, ut)); index.append((sid, cid))
+            if not res.get("skipped"):
+                lines.append("inv %s %s" % (case["datagram"], ex)); index.append((sid, cid, "inv"))
     outs = ctx.driver().batch(lines + wlines)
     wouts, outs = outs[len(lines):], outs[:len(lines)]
     n_diff, first = 0, None
@@ -539,7 +643,7 @@ def run(ctx):
         if o != real_t:
             n_diff += 1
             if first is None: first = (case, res, line + " -> " + o, "the real validation / encoder: " + real_t, minor, [s["class"] for s in srvinfos])
-    n_cases = n_fresh = n_after_fail = 0
+    n_cases = n_fresh = n_after_fail = n_inv = 0
     for line, o, ix in zip(lines, outs, index):
         if ix is None:
             if o != "ok": raise vf.InfraError("driver rejected %r: %s" % (line[:80], o))
@@ -547,6 +651,14 @@ def run(ctx):
         srvinfos, cases, results, minor, fresh = sessions[ix[0]]
         case, res = cases[ix[1]], results[ix[1]]
         si = srvinfos[case["srv"]] if case["srv"] is not None else None
+        if len(ix) == 3:
+            # the model's dispatch (which server's handle() is entered, with which method id, which user method runs)
+            real_d = real_dispatch(srvinfos, res)
+            n_inv += 1
+            if o != real_d:
+                n_diff += 1
+                if first is None: first = (case, res, line[:200] + " -> " + o, "the real dispatch: " + real_d, minor, [s["class"] for s in srvinfos])
+            continue
         if res.get("skipped"):
             # the real loop had ended: the model's `serve` must have ended too
             if o != "dead":
@@ -587,6 +699,7 @@ def run(ctx):
         if hres != real_h or reaction != real:
             n_diff += 1
             if first is None: first = (case, res, o, real_h + " => " + real, minor, [s["class"] for s in srvinfos])
+    ctx.extra["requests_whose_dispatch_and_invoked_user_method_were_compared_with_the_model"] = n_inv
     ctx.extra["requests_compared_with_fresh_connection"] = n_fresh
     ctx.extra["wrongly_typed_result_cases"] = n_wrong
     ctx.extra["wrongly_typed_result_cases_the_property_calls_incompatible"] = n_wrong_incompat
